@@ -60,7 +60,7 @@ func (s *SessionStore) Get(_ context.Context, key any) (any, error) {
 	s.op("Get", k)
 	s.mu.Lock()
 	e, ok := s.m[k]
-	if ok && !e.exp.IsZero() && !time.Now().Before(e.exp) {
+	if ok && !e.exp.IsZero() && time.Now().After(e.exp) {
 		delete(s.m, k)
 		ok = false
 	}
@@ -79,7 +79,7 @@ func (s *SessionStore) GetWithTTL(ctx context.Context, key any) (any, time.Durat
 	s.op("GetWithTTL", k)
 	s.mu.Lock()
 	e, ok := s.m[k]
-	if ok && !e.exp.IsZero() && !time.Now().Before(e.exp) {
+	if ok && !e.exp.IsZero() && time.Now().After(e.exp) {
 		delete(s.m, k)
 		ok = false
 	}
